@@ -202,5 +202,87 @@ pub fn run(ctx: &Ctx) -> Report {
     }
   }
   report.model_requests = model.requests;
+  // ---- the same dispatch under other spellings of the directory and other states of the world
+  let only: Option<Vec<String>> = super::replay_cases(ctx).map(|rc| rc.iter().filter_map(|v| v.get("scenario").and_then(|s| s.as_str()).map(|s| s.to_string())).collect());
+  for (label, dir_arg, lands_in) in [
+    ("binary-under-another-name", "out", "out"),
+    ("working-directory-with-a-non-utf8-name", ".", "."),
+    ("directory-given-through-a-link", "link-out", "real-out"),
+    ("directory-spelled-through-a-missing-one", "ghost/../out", "out"),
+    ("directory-called-dash", "-", "-"),
+    ("directory-with-trailing-slash", "out/", "out"),
+    ("absolute-directory", "<ABS>/out", "out"),
+    ("a-directory-where-a-script-goes", "out", "out"),
+  ] {
+    for shell in [None, Some("fish"), Some("powershell")] {
+      let name = format!("{label}:{}", shell.unwrap_or("all"));
+      if let Some(o) = &only {
+        if !o.contains(&name) {
+          continue;
+        }
+      }
+      let sb = Sandbox::new(&ctx.work, "c19x");
+      let mut cwd = sb.root.clone();
+      if label == "working-directory-with-a-non-utf8-name" {
+        use std::os::unix::ffi::OsStrExt;
+        cwd = sb.root.join(std::ffi::OsStr::from_bytes(b"caf\xe9"));
+        std::fs::create_dir_all(&cwd).unwrap();
+      }
+      for d in ["out", "real-out", "-"] {
+        std::fs::create_dir_all(cwd.join(d)).unwrap();
+      }
+      let _ = std::os::unix::fs::symlink("real-out", cwd.join("link-out"));
+      if label == "a-directory-where-a-script-goes" {
+        std::fs::create_dir_all(cwd.join("out/_imdl.ps1")).unwrap();
+      }
+      let mut bin = ctx.imdl.clone();
+      if label == "binary-under-another-name" {
+        let alt = sb.path("bin/frobnicate");
+        std::fs::create_dir_all(alt.parent().unwrap()).unwrap();
+        let _ = std::os::unix::fs::symlink(&ctx.imdl, &alt);
+        bin = alt.to_string_lossy().into_owned();
+        // what it prints under that name is the script all the same
+        let out = Cmd::new(&bin, &["completions", "--shell", "bash"]).cwd(&cwd).run();
+        if out.stdout != printed["bash"] {
+          report.fail("property", "completions-dispatch", json!({"scenario": name}), "started under another name, `--shell bash` prints a different script".into());
+        }
+      }
+      let dir_arg = dir_arg.replace("<ABS>", &cwd.to_string_lossy());
+      let mut args = vec!["completions", "--dir", dir_arg.as_str()];
+      if let Some(sh) = shell {
+        args.extend(["--shell", sh]);
+      }
+      let before = snapshot(&cwd);
+      let out = Cmd::new(&bin, &args).cwd(&cwd).literal().run();
+      let after = snapshot(&cwd);
+      let case = json!({"scenario": name, "args": args});
+      report.case(Some(fnv_str(&case.to_string())));
+      report.hit(&format!("scenario:{label}"));
+      let mut changed: Vec<String> = after.iter().filter(|(k, v)| before.get(*k) != Some(*v)).map(|(k, _)| k.clone()).chain(before.keys().filter(|k| !after.contains_key(*k)).cloned()).collect();
+      changed.sort();
+      let doomed = label == "a-directory-where-a-script-goes" && shell != Some("fish");
+      if doomed {
+        // the PowerShell script cannot be written: a reported failure, whatever else was written before it
+        if out.code != Some(1) {
+          report.fail("property", "completions-dispatch", case, format!("a directory sits where `_imdl.ps1` goes; exit status {:?}, expected a reported failure", out.code));
+        }
+        continue;
+      }
+      let shells: Vec<&str> = match shell {
+        Some(s) => vec![s],
+        None => SHELLS.iter().map(|(n, _)| *n).collect(),
+      };
+      let prefix = if lands_in == "." { String::new() } else { format!("{lands_in}/") };
+      let mut want: Vec<String> = shells.iter().map(|s| format!("{prefix}{}", SHELLS.iter().find(|(n, _)| n == s).unwrap().1)).collect();
+      want.sort();
+      if out.code != Some(0) {
+        report.fail("property", "completions-dispatch", case, format!("failed: {}", out.stderr_s()));
+      } else if changed != want {
+        report.fail("property", "completions-dispatch", case, format!("changed paths {changed:?}, expected exactly {want:?}"));
+      } else if let Some(bad) = shells.iter().find(|s| std::fs::read(cwd.join(format!("{prefix}{}", SHELLS.iter().find(|(n, _)| n == *s).unwrap().1))).ok().as_ref() != Some(&printed[*s])) {
+        report.fail("property", "completions-dispatch", case, format!("the file written for {bad} is not what `--shell {bad}` prints"));
+      }
+    }
+  }
   report
 }
